@@ -115,6 +115,7 @@ fn op_variants(k: &OpKind) -> Vec<OpKind> {
             .collect()
     }
     match k {
+        OpKind::ByRef(inner) => out.push((**inner).clone()),
         OpKind::CreateNow(c) => out.extend(drop_each(c).into_iter().map(OpKind::CreateNow)),
         OpKind::BuilderDropped(c) => out.extend(drop_each(c).into_iter().map(OpKind::BuilderDropped)),
         OpKind::CreateIterNow(n) if *n > 1 => out.push(OpKind::CreateIterNow(n - 1)),
